@@ -1116,6 +1116,19 @@ def drv_grad_api(doc, args, inst):
         ref = [x.cores[k].grad for k in (idx if idx is not None else range(3))]
         if len(g) != len(ref) or any(a is None or a.shape != b.shape or not tn.equal(a, b) for a, b in zip(g, ref)):
             msgs.append('grad(val, x, %s) does not return the gradients of the requested cores in the requested order' % idx)
+    elif case in ('grad_twice', 'grad_list_twice'):
+        tt.grad.watch(x)
+        call = (lambda v: tt.grad.grad(v, x)) if case == 'grad_twice' else (lambda v: tt.grad.grad_list(v, [x]))
+        g1 = call(x.sum())
+        g1_copy = [t.clone() for t in g1]
+        g2 = call((x * x).sum())
+        y = tt.TT([c.detach().clone().requires_grad_(True) for c in x.cores])
+        ref2 = tn.autograd.grad((y * y).sum(), y.cores)
+        if any(not tn.allclose(a, b) for a, b in zip(g2, ref2)):
+            msgs.append('second %s call on the same watched tensor does not return the gradient of its value (max deviation %.3g: gradients of both calls are summed)' % (
+                'grad' if case == 'grad_twice' else 'grad_list', max(float((a - b).abs().max()) for a, b in zip(g2, ref2))))
+        if any(not tn.equal(a, b) for a, b in zip(g1, g1_copy)):
+            msgs.append('the list returned by the first call changed its value during the second call')
     elif case == 'watch_some':
         tt.grad.watch(x, [2, 0])
         if [c.requires_grad for c in x.cores] != [True, False, True]:
